@@ -245,7 +245,8 @@ class FileSytemBackend(strax.StorageBackend):
             # with the usual message in the next stage)
             old_md_path = osp.join(dirname, "metadata.json")
             if not osp.exists(old_md_path):
-                raise strax.DataCorrupted(f"Data in {dirname} has no metadata")
+                # E.g. removing old data was interrupted after the metadata was deleted
+                raise strax.DataNotAvailable(f"Data in {dirname} has no metadata")
             md_path = old_md_path
 
         with open(md_path, mode="r") as f:
